@@ -20,7 +20,7 @@
    global lookups - both directions at once.  The fragment with function / class / comprehension
    scopes (deferred loads, scope hiding) is covered by correspondence + execution oracle only. *)
 From Coq Require Import NArith List Bool.
-From Verif Require Import Scope.PySyntax Scope.Finder Scope.PySem Scope.Fragment Scope.FinderProofs.
+From Verif Require Import Scope.PySyntax Scope.Finder Scope.PySem Scope.Fragment Scope.FinderProofs Scope.UnusedProofs.
 Import ListNotations.
 
 (* stage 1, per occurrence: pyflyby reports a name rooted at n on line l  <->  the read of n on line l
@@ -52,6 +52,45 @@ Print Assumptions C05_find_missing_is_projection.
 Theorem C05_remove_from_missing_only_drops : forall c l m, In m (remove_from_missing c l) -> In m l.
 Proof. exact remove_from_missing_incl. Qed.
 Print Assumptions C05_remove_from_missing_only_drops.
+
+(* ---------- the unused side of the shared model (for C02): unused_sound on stage 1 ----------
+   An import reported unused by scan_for_import_issues is the binding of no read.  Hypotheses beyond the
+   stage-1 shape: every import binds a one-component key (u1_block: no plain `import a.b` - F16), and no
+   two import items have the same (line, import) pair (the pair is how the report names an import). *)
+Theorem C05_unused_sound_stage1 : forall bi ns p, u1_block p = true -> star_free bi ns = true ->
+  NoDup (imp_events (bsrcs_block false p)) ->
+  forall l i, In (l, i) (snd (finder bi ns true p)) ->
+  forall ln n, ~ In (ln, n, Bound (BImp l i)) (pysem bi ns p).
+Proof. exact u1_unused_sound. Qed.
+Print Assumptions C05_unused_sound_stage1.
+
+Definition unused_sound_at (p : program) : Prop :=
+  forall l i, In (l, i) (snd (finder [] [[]] true p)) -> forall ln n, ~ In (ln, n, Bound (BImp l i)) (pysem [] [[]] p).
+(* F16:  import os.path ; os.getcwd()   - the read goes through the package name *)
+Theorem C05_unused_sound_refuted_F16 :
+  ~ unused_sound_at [SImport 1 [([50; 51], None)]; SExpr 2 (EOp [ELoad 50 [52]])]%N.
+Proof.
+  unfold unused_sound_at. intro H. apply (H 1%nat ([50; 51], [50; 51])%N) with (ln := 2%nat) (n := 50%N); vm_compute; auto.
+Qed.
+Print Assumptions C05_unused_sound_refuted_F16.
+(* import a, a ; a   - two items with the same (line, import): the first checker is reported *)
+Theorem C05_unused_sound_refuted_duplicate_item :
+  ~ unused_sound_at [SImport 1 [([50], None); ([50], None)]; SExpr 2 (ELoad 50 [])]%N.
+Proof.
+  unfold unused_sound_at. intro H. apply (H 1%nat ([50], [50])%N) with (ln := 2%nat) (n := 50%N); vm_compute; auto.
+Qed.
+Print Assumptions C05_unused_sound_refuted_duplicate_item.
+(* non-vacuity: import m as a; import n as b; a   -> only `import n as b` is unused *)
+Example C05_unused_nonvacuous :
+  let p := [SImport 1 [([60], Some 61)]; SImport 2 [([62], Some 63)]; SExpr 3 (ELoad 61 [64])]%N in
+  u1_block p = true /\ NoDup (imp_events (bsrcs_block false p)) /\
+  snd (finder [] [[]] true p) = [(2%nat, ([62], [63]))]%N /\
+  In (3%nat, 61%N, Bound (BImp 1 ([60], [61])%N)) (pysem [] [[]] p).
+Proof.
+  cbv zeta. split. reflexivity. split.
+  { vm_compute. repeat constructor; cbn; intuition discriminate. }
+  split. vm_compute. reflexivity. vm_compute. auto.
+Qed.
 
 (* ---------- refutations of the full soundness statement: one witness per unrepaired F10 class ---------- *)
 Definition sound_at (bi : list name) (ns : list (list name)) (p : program) : Prop :=
